@@ -4,6 +4,7 @@ import Driver.Sf
 import Driver.Sfwrap
 import Driver.Caches
 import Driver.Validators
+import Driver.Aead
 open Lean Sso.Drv
 
 /-! `ssoverif <trace.jsonl>`: one verdict line per case, then a summary line. -/
@@ -15,6 +16,7 @@ def dispatch (e : String) (j : Json) : Except String Verdict :=
   | "sfwrap" => Sso.Drv.Sfwrap.checkCase j
   | "caches" => Sso.Drv.Caches.checkCase j
   | "validators" => Sso.Drv.Validators.checkCase j
+  | "aead" => Sso.Drv.Aead.checkCase j
   | _ => throw s!"unknown engine {e}"
 
 partial def loop (h : IO.FS.Stream) (out : IO.FS.Stream) (n bad : Nat) : IO (Nat × Nat) := do
